@@ -1,7 +1,7 @@
 """C13 -- variable resolution is plain substitution and keeps the rest of the preamble.
 
-Alphabet : 15 preamble lines (comment, abi, include, alias, definitions with =, appends with +=, nested and
-           repeated references, // in values, a self-reference, an undefined reference, a second definition, two different references in one value where the right one refers to the left one again)
+Alphabet : 17 preamble lines (comment, abi, include, alias, definitions with =, appends with +=, nested and
+           repeated references, // in values, a self-reference, an undefined reference, a second definition, two different references in one value where the right one refers to the left one again, variable names that are prefixes of one another)
 Bound    : every sequence of distinct lines of length <= 6 (thorough) / <= 5 (quick), followed by
            `profile p @{exec_path} {`: 2.2 million / 267 thousand files
 Oracle   : a naive reference expander (fold += into the definition, substitute recursively, all
@@ -51,7 +51,7 @@ def run(tier):
     bins = gox.build(os.path.join(C.scratch(), 'gox'), ['c13x'])
     L = 6 if tier == 'thorough' else 5
     LC = 4 if tier == 'thorough' else 3
-    of = 15
+    of = 17
     pool = ThreadPoolExecutor(C.NPROC)
 
     def shard(i):
